@@ -213,7 +213,9 @@ CLAIMED = {
               "ctm_snoc / ctm_mapPt — the transform accumulated parent-first by _element_transform maps a point through the "
               "innermost transform first and the outermost last for chains of any depth (elementTransform_step ties the step "
               "to the model of the code); use_instance / use_under_ctm — an instance is placed at T_use(p + (x,y)) under any "
-              "CTM; viewport_none_under_ctm, viewport_meet_inside (with C11's rect_to_rect theorems) for nested svg; "
+              "CTM; viewport_none_under_ctm, viewport_meet_inside (with C11's rect_to_rect theorems) for nested svg, and "
+              "nested_svg_keeps_presentation / nested_svg_consumes_placement: a nested svg's presentation attributes reach the "
+              "group that replaces it, its placement attributes never do (over a table regenerated from the code); "
               "replace_keeps_order, tree_replace_keeps_document_order, tree_replace_order — replacing one element by any list of "
               "nodes keeps every other element in place and in order, in a sibling list and (by mutual induction over the "
               "model's bottom-up rewrite Node.replaceUid) anywhere in the tree at any depth: document order is z-order. The "
